@@ -110,7 +110,11 @@ def module_tokens(mod):
 
 LINE_COMMENT_TEXTS = ["", " plain comment", "set(x 1)", " function(", " #]]", "#[[[ fake", "]] x", " \"unterminated",
                       " (", " ) )", "[ not bracket", "[=", "[=x]=]", " endfunction()", "\t tab", " cpp_end_class()",
-                      " @module nope", "[==x", " \\", " ${x}"]
+                      " @module nope", "[==x", " \\", " ${x}",
+                      # characters that Python's str.splitlines() takes for line ends but CMake (and the grammar) do not:
+                      # what follows them is still comment text
+                      " note\u2028function(ghost_ls_fn a)", " x\u2029set(GHOST_PS 1)", " page\x0cmacro(ghost_ff_m)", " nel\x85option(GHOST_NEL \"h\" ON)",
+                      " vt\x0badd_test(NAME ghost_vt COMMAND x)", " fs\x1cfunction(ghost_fs)"]
 BRACKET_COMMENT_TEXTS = [" plain ", "set(x 1)", " function( ", "\n multi\n line\n", " #[[[ fake ", " \" ", " ( ",
                          "", " endmacro() ", " # ", "\n#[[[\n# looks like a doccomment\n#", " ]=] ", " ] ] "]
 
@@ -119,8 +123,9 @@ class Layout:
     """Chooses everything that is *not* a token: whitespace, comments, command-name case,
     doccomment indentation. `plain` gives one canonical layout (one command per line)."""
 
-    def __init__(self, rng=None, comments=0.0, wild=0.0, case="lower", doc_indent=None, eol="\n"):
+    def __init__(self, rng=None, comments=0.0, wild=0.0, case="lower", doc_indent=None, eol="\n", docforms=0.0):
         self.rng = rng
+        self.docforms = docforms    # probability that a doccomment is written in an unusual form (closer inline / one line)
         self.comments = comments    # probability of a comment at a gap that allows one
         self.wild = wild            # probability of unusual whitespace at a gap
         self.case = case            # lower | upper | mixed | random
@@ -201,7 +206,17 @@ class Layout:
         return s
 
 
-def doc_block(lines, indent, opener="#[[[", leaderless=False, raw=None):
+def doc_block(lines, indent, opener="#[[[", leaderless=False, raw=None, form="canonical"):
+    """form: "canonical" (delimiters on lines of their own), "close-inline" (the closing '#]]' directly behind the last text
+    line) or "oneline" ('#[[[ text#]]'); the two unusual forms are only used where they clean to the same text."""
+    ok_last = bool(lines) and lines[-1] != "" and lines[-1][-1] not in "#] \t" and not leaderless and raw is None
+    if form == "oneline" and ok_last and len(lines) == 1 and opener == "#[[[" and not lines[0].lstrip().startswith("@module"):
+        # ('#[[[ @module' opens a MODULE doccomment, wherever it stands)
+        return indent + "#[[[ " + lines[0] + "#]]\n"
+    if form == "close-inline" and ok_last:
+        body = [indent + ("# " + t if t != "" else "#") for t in lines]
+        body[-1] += "#]]"
+        return "\n".join([indent + opener] + body) + "\n"
     out = [indent + opener]
     if raw is not None:
         # free-form body (C04 only): lines exactly as given after the uniform block indentation
@@ -241,7 +256,11 @@ def render(mod, layout=None):
                 ind = ""
             if v.leaderless and lay.doc_indent is None:
                 ind = ""
-            out.append(doc_block(v.doc, ind, leaderless=v.leaderless, raw=getattr(v, "raw_lines", None)))
+            form = "canonical"
+            if lay.docforms and lay._p(lay.docforms):
+                form = lay.rng.choice(["close-inline", "oneline"])
+                lay.stats["unusual_doc_forms"] = lay.stats.get("unusual_doc_forms", 0) + 1
+            out.append(doc_block(v.doc, ind, leaderless=v.leaderless, raw=getattr(v, "raw_lines", None), form=form))
             i += 1
             continue
         if k == "ID":
